@@ -1181,6 +1181,15 @@ def gen_http(runner, tier, seed):
             pl.append(http_request("GET", b"/", headers=[b"X-Val: v" + bytes([b]) + b"w"]))
         if b not in (13, 10, 58, 32, 9):
             pl.append(http_request("GET", b"/", headers=[b"N" + bytes([b]) + b"m: v", b"Host: h"]))
+    # header values of every small shape (empty, one blank, one byte, blanks around), as the first, a middle and the
+    # last header line, with both line ends, with and without a body after the empty line
+    for eol in (b"\r\n", b"\n"):
+        for val in (b"", b" ", b"\t", b"x", b" x", b"x ", b"  ", b":", b" :", b"::"):
+            h = b"X-E:" + val
+            for hs in ([h], [h, b"Host: a"], [b"Host: a", h], [b"Host: a", h, b"B: c"], [h, h]):
+                pl.append(http_request(r.choice(HTTP_VERBS), b"/", headers=hs, eol=eol))
+            pl.append(http_request("POST", b"/", headers=[b"Host: a", h], eol=eol, body=b"k=v"))
+            pl.append(http_request("GET", b"/", headers=[b"n:" + val], eol=eol))
     for maj in (b"0", b"1", b"9", b"10", b"123456789"):
         for mnr in (b"0", b"1", b"9", b"11", b"000"):
             pl.append(http_request("GET", b"/v", b"HTTP/" + maj + b"." + mnr))
@@ -1486,6 +1495,8 @@ def gen_smb(runner, tier, seed):
                    flags=r.choice([0x18, 0x08, 0x00, 0x18, r.choice([0x80, 0x88, 0x90, 0x98, 0x81, 0xff, 0xc0])]))
         pl.append(smb1_negotiate(ds, **hdr))
         pl.append(smb1_session_setup(blob=rb(r, r.choice([1, 2, 40, 74, 255, 300])), **hdr))
+        # the strings after the security blob are optional: none at all, one byte, an odd number of bytes
+        pl.append(smb1_session_setup(blob=rb(r, r.choice([1, 2, 40, 74, 255, 300])), tail=r.choice([b"", b"", b"\0", b"W\0\0", rb(r, 7)]), **hdr))
         d2 = r.sample([0x0202, 0x0210, 0x0300, 0x0302, 0x0311, 0x02ff, 0x0310, 0x0000, 0x1234, 0xffff, 0x0201], r.randrange(1, 8))
         if r.random() < 0.15:
             d2.append(d2[0])
